@@ -106,7 +106,7 @@ pub fn configs(quick: bool) -> Vec<Config> {
         Config { name: "T2_c1_d3_full", threads: 2, creds: 1, draws: 3, budget: 6, decoys: false, same_claims: true, moved_instance: false, burst: 0 },
         Config { name: "T3_c1_d1_full", threads: 3, creds: 1, draws: 1, budget: 2, decoys: false, same_claims: false, moved_instance: false, burst: 0 },
         Config { name: "T2_c2_d1_full", threads: 2, creds: 2, draws: 1, budget: 2, decoys: false, same_claims: true, moved_instance: true, burst: 0 },
-        Config { name: "T2_c1_d1_decoys", threads: 2, creds: 1, draws: 1, budget: 6, decoys: true, same_claims: true, moved_instance: false, burst: 0 },
+        Config { name: "T2_c1_d1_decoys", threads: 2, creds: 1, draws: 1, budget: 4, decoys: true, same_claims: true, moved_instance: false, burst: 0 },
         Config { name: "T3_c1_d2_before_only", threads: 3, creds: 1, draws: 2, budget: 2, decoys: false, same_claims: true, moved_instance: true, burst: 0 },
     ];
     v.push(Config { name: "T2_one_draw_vs_burst_300", threads: 2, creds: 1, draws: 1, budget: 2, decoys: false, same_claims: false, moved_instance: false, burst: 300 });
